@@ -2,7 +2,7 @@
 """Runs every claimed check against every confirmed seeded change (on a scratch copy of /repo with the patch applied,
 so /repo itself stays untouched) and records which rules report it in seeded/<id>/meta.json -> detected_by."""
 import json, os, subprocess, glob, re, shutil, sys
-V="/verif"; S="/tmp/seedmatrix-repo"; SV="/tmp/seedmatrix-verif"
+V="/verif"; S="/tmp/seedmatrix-repo-%d"%os.getpid(); SV="/tmp/seedmatrix-verif-%d"%os.getpid()
 only=sys.argv[1:] 
 rows=[]
 for d in sorted(glob.glob(V+"/seeded/C*-*")):
